@@ -10,6 +10,7 @@ import GocoinV.Proofs.C08_Field
 import GocoinV.Proofs.C08_Bytes
 import GocoinV.Proofs.C08_Primes
 import GocoinV.Proofs.C08_TabAll
+import GocoinV.Proofs.C08_Sqr
 
 namespace GocoinV.Props.C08
 open GocoinV.C08 GocoinV.Gen.Field5x52 GocoinV.Gen
@@ -47,6 +48,28 @@ theorem normalize_spec (r : Fe) (h : r.mag 32) :
   normalize_val r h
 
 example : (normalize ⟨0xFFFFEFFFFFC2F, 0xFFFFFFFFFFFFF, 0xFFFFFFFFFFFFF, 0xFFFFFFFFFFFFF, 0xFFFFFFFFFFFF⟩).val = 0 := by decide
+
+/-- `Field.Mul` (generated from field_5x52.go, bits.Mul64/Add64 pairs as written): for ALL limb vectors of
+    magnitude ≤ 8 (libsecp256k1's contract for mul) none of the 128-bit accumulators `(hi, lo)` overflows,
+    the value of the result is congruent to the product of the values modulo p, and the result has
+    magnitude 1 (limbs 0–3 below 2^52, top limb at most 2·(2^48−1)). -/
+theorem mul_spec (a b : Fe) (ha : a.mag 8) (hb : b.mag 8) :
+    (mul a b).val % P = a.val * b.val % P ∧ (mul a b).mag 1 :=
+  mul_val a b ha hb
+
+example : (mul ⟨2^56 - 16, 2^56 - 16, 2^56 - 16, 2^56 - 16, 2^52 - 16⟩ ⟨2^56 - 16, 2^56 - 16, 2^56 - 16, 2^56 - 16, 2^52 - 16⟩).val % P
+    = (⟨2^56 - 16, 2^56 - 16, 2^56 - 16, 2^56 - 16, 2^52 - 16⟩ : Fe).val * (⟨2^56 - 16, 2^56 - 16, 2^56 - 16, 2^56 - 16, 2^52 - 16⟩ : Fe).val % P := by
+  decide
+
+/-- `Field.Sqr` (generated): for ALL limb vectors of magnitude ≤ 8 no accumulator overflows, the value of
+    the result is congruent to the square of the value modulo p, and the result has magnitude 1. -/
+theorem sqr_spec (a : Fe) (ha : a.mag 8) :
+    (sqr a).val % P = a.val * a.val % P ∧ (sqr a).mag 1 :=
+  sqr_val a ha
+
+example : (sqr ⟨2^56 - 16, 7, 2^56 - 16, 0, 2^52 - 16⟩).val % P
+    = (⟨2^56 - 16, 7, 2^56 - 16, 0, 2^52 - 16⟩ : Fe).val * (⟨2^56 - 16, 7, 2^56 - 16, 0, 2^52 - 16⟩ : Fe).val % P := by
+  decide
 
 /-- `Field.SetB32`: for ALL 32-byte inputs the limbs are canonical and their value is the big-endian
     integer of the bytes (`a i` is byte i of the slice). -/
